@@ -904,3 +904,78 @@ Example C01_static_split_block_facts_example :
   split sn (blk_of sn (cl (con_of sn 0))) 0 = Ok (sn', 3%nat, 4%nat) /\
   blk_of sn' 0 = 3%nat /\ blk_of sn' 1 = 4%nat.
 Proof. exact split_glue_example. Qed.
+
+(* ---------------- the first half of Blocks::split assembled (Vpsc/StaticSplitFirst.v): Block::split on a forest state
+   whose block b is stationary with lm(c) <= 0, "r->posn = b->posn", mergeLeft(l) - from the invariants refine's second loop
+   works in; no hypothesis about heap roots, signs or Block::split is left.  split_pre s b bs l r = the state static_split
+   calls merge_left in (static_split_unfold).  Still to do for passes_ok: the second half (updateWeightedPosition,
+   mergeRight entry in both modes), carrying forest / stationarity / the vector lengths between splits, totality. *)
+From Adapt Require Import Vpsc.StaticSplitFirst Vpsc.StaticSplitFirstEx.
+Theorem C01_static_split_first_half s b c bs l r s4 :
+  book (base s) -> act_inv (base s) -> forest (base s) -> wf_vars (svars (base s)) -> all_blk_ok (base s) -> all_sat0 (base s) ->
+  act_of (base s) c = true -> b = blk_of (base s) (cl (con_of (base s) c)) ->
+  stationary_block (base s) (base s) b -> lm_of (base s) c <= 0 ->
+  T2 s -> (forall x, (x < length (scons (base s)))%nat -> ctime_of s x = ctr s) ->
+  length (ctime s) = length (scons (base s)) ->
+  length (bin s) = length (blocks (base s)) -> length (btime s) = length (blocks (base s)) ->
+  (forall B, inhabited (base s) B -> exists h, bin_of s B = Some h /\ hgoodC s h /\ hsound s B h /\ hcomplete s B h) ->
+  split (base s) b c = Ok (bs, l, r) ->
+  merge_left (split_pre s b bs l r) l = Ok s4 ->
+  exists M, MLS (Yof (base s)) (cr (con_of (base s) c)) (base s4) M /\
+    (forall i, (i < length (scons (base s4)))%nat -> blk_of (base s4) (cr (con_of (base s4) i)) = M ->
+               blk_of (base s4) (cl (con_of (base s4) i)) <> M -> 0 <= slack_val (base s4) i) /\
+    scons (base s4) = scons (base s) /\ svars (base s4) = svars (base s) /\
+    (exists M' c', MLH s4 M' c').
+Proof. exact (split_first_half s b c bs l r s4). Qed.
+Print Assumptions C01_static_split_first_half.
+
+Theorem C01_static_split_unfold s b c :
+  static_split s b c =
+  bind (split (base s) b c) (fun t =>
+    let '(bs, l, r) := t in
+    bind (merge_left (split_pre s b bs l r) l) (fun s4 =>
+      let r' := rblk s4 c in
+      let s5 := set_base s4 (update_weighted_position (base s4) r') in
+      bind (merge_right s5 r') (fun s6 => Ok (set_base s6 (kill_block (base s6) b))))).
+Proof. exact (static_split_unfold s b c). Qed.
+
+(* findMinLM only rewrites multipliers: the heap facts of refine's first loop survive "s := set_base s bs" *)
+Theorem C01_static_refine_heaps_after_find_min_lm s bs :
+  lm_only (base s) bs ->
+  (forall B, inhabited (base s) B -> exists h, bin_of s B = Some h /\ hgoodC s h /\ hsound s B h /\ hcomplete s B h) ->
+  (forall B, inhabited bs B -> exists h, bin_of (set_base s bs) B = Some h /\ hgoodC (set_base s bs) h /\
+                                          hsound (set_base s bs) B h /\ hcomplete (set_base s bs) B h).
+Proof. exact (heaps_lm_only s bs). Qed.
+Print Assumptions C01_static_refine_heaps_after_find_min_lm.
+
+(* non-vacuity: satisfy(), desired positions pulled apart, updateWeightedPosition, refine's first loop, findMinLM
+   (lm(c0) = -4), the model's own Block::split: every premise of C01_static_split_first_half holds, mergeLeft(l) returns;
+   the state also witnesses the premises of C01_static_refine_heaps_after_find_min_lm (sf_lm_only) *)
+Example C01_static_split_first_half_example :
+  book (base sf_s) /\ act_inv (base sf_s) /\ forest (base sf_s) /\ wf_vars (svars (base sf_s)) /\ all_blk_ok (base sf_s) /\
+  all_sat0 (base sf_s) /\ act_of (base sf_s) 0 = true /\ 1%nat = blk_of (base sf_s) (cl (con_of (base sf_s) 0)) /\
+  stationary_block (base sf_s) (base sf_s) 1 /\ lm_of (base sf_s) 0 <= 0 /\
+  T2 sf_s /\ (forall x, (x < length (scons (base sf_s)))%nat -> ctime_of sf_s x = ctr sf_s) /\
+  length (ctime sf_s) = length (scons (base sf_s)) /\
+  length (bin sf_s) = length (blocks (base sf_s)) /\ length (btime sf_s) = length (blocks (base sf_s)) /\
+  (forall B, inhabited (base sf_s) B -> exists h, bin_of sf_s B = Some h /\ hgoodC sf_s h /\ hsound sf_s B h /\ hcomplete sf_s B h) /\
+  split (base sf_s) 1 0 = Ok (sf_bs, 3%nat, 4%nat) /\ sf_returns = true.
+Proof. exact split_first_half_example. Qed.
+Example C01_static_refine_heaps_after_find_min_lm_example : lm_only (base sf_setup) sf_lm.
+Proof. exact sf_lm_only. Qed.
+
+(* Block::updateWeightedPosition recomputes statistics and position from the variable list: blk_ok afterwards whatever the
+   position was (the "r->updateWeightedPosition()" of Blocks::split's second half) *)
+Theorem C01_static_update_weighted_position_optimum s b :
+  wf_vars (svars s) -> (b < length (blocks s))%nat -> bvars (block_of s b) <> [] -> 0 < bscale (block_of s b) ->
+  let s' := update_weighted_position s b in
+  blk_ok s' b /\ svars s' = svars s /\ scons s' = scons s /\ voff s' = voff s /\ vblk s' = vblk s /\ cact s' = cact s /\
+  length (blocks s') = length (blocks s) /\
+  bvars (block_of s' b) = bvars (block_of s b) /\ bscale (block_of s' b) = bscale (block_of s b) /\
+  (forall X, X <> b -> block_of s' X = block_of s X).
+Proof. exact (uwp_blk_ok s b). Qed.
+Print Assumptions C01_static_update_weighted_position_optimum.
+Example C01_static_update_weighted_position_optimum_example :
+  wf_vars (svars sn') /\ (4 < length (blocks sn'))%nat /\ bvars (block_of sn' 4) <> [] /\ 0 < bscale (block_of sn' 4) /\
+  blk_ok (update_weighted_position sn' 4) 4.
+Proof. exact uwp_blk_ok_example. Qed.
